@@ -405,6 +405,9 @@ def main(argv: List[str]) -> int:
         else:
             rep.violation({k: it[k] for k in it if k != 'tid'}, {'failing_clause': v, 'fps': rec['fps'][:3], 'shared': rec['shared'], 'reclaimed': rec['reclaimed']})
     rep.notes['cases_by_kind'] = per
+    never = [k for k in ('schedule', 'threads', 'history') if not per.get(k)]
+    if never:
+        raise core.Machinery('C11: kinds of execution never run: %s' % never)
     rep.notes['schedules_from_tlc'] = len(scheds)
     rep.samples.append({'kind': 'schedule', 'schedule': scheds[len(scheds) // 2]})
     return rep.finish()
